@@ -375,11 +375,19 @@ loom::thread_local! {
 /// Returns the number of threads that ran.
 pub fn nesting_model(which: usize) -> usize {
     if which == 3 {
+        // two threads, OUTER only: whoever initialises OUTER initialises INNER inside it
+        let t1 = loom::thread::spawn(|| assert_eq!(*LZ_OUTER, 6));
+        assert_eq!(*LZ_OUTER, 6);
+        t1.join().unwrap();
+        2
+    } else if which == 5 {
+        // three threads; one of them also reads INNER directly, before or after OUTER
         let t1 = loom::thread::spawn(|| assert_eq!(*LZ_OUTER, 6));
         let t2 = loom::thread::spawn(|| {
-            assert_eq!(*LZ_INNER, 5);
             assert_eq!(*LZ_OUTER, 6);
+            assert_eq!(*LZ_INNER, 5);
         });
+        assert_eq!(*LZ_INNER, 5);
         assert_eq!(*LZ_OUTER, 6);
         t1.join().unwrap();
         t2.join().unwrap();
